@@ -35,7 +35,7 @@ def check(ctx):
     for v in q.variants_of(P, "TypeDef", "scale_info"):
         if v not in arms:
             ctx.bad("C12.1", "arm/" + v, site(m), "no explicit arm for TypeDef::%s in the scale-value generator" % v)
-    CH = "Option::ok_or_else(SliceRandom::choose(A.variants,%s),|0|{%s})?" % (RNG, ANY)
+    CH = "ok_or(SliceRandom::choose(A.variants,%s),%s)?" % (RNG, ANY)
     exp = {
         "Composite": "Ok(scale_value::Value{context:(),value:ValueDef::Composite(scale_value::fields_type_example(Iterator::map(A.fields,|1|{(C1_0.name,C1_0.ty.id)}),%s)?)})" % TR,
         "Variant": "Ok(scale_value::Value{context:(),value:ValueDef::Variant(scale_value::Variant{name:%s.name,values:scale_value::fields_type_example(Iterator::map(%s.fields,|1|{(C1_0.name,C1_0.ty.id)}),%s)?})})" % (CH, CH, TR),
@@ -107,9 +107,9 @@ def check(ctx):
     # fields
     expect_fn(ctx, "C12.3", "fields", "scale_value::fields_type_example",
               "match((Iterator::all(P0,|1|{Option::is_some(C1_0.0)}),Iterator::all(P0,|1|{Option::is_none(C1_0.0)}))){(true,true)=>Ok(Composite::Unnamed(Vec::new()));"
-              "(true,false)=>Ok(Composite::named(mut[Vec::new();.Vec::push((Into::into(Option::unwrap(elem(P0).0)),Transformer::resolve(P1,elem(P0).1)?)) if %s~(true,false)&&for(P0)]));"
-              "(false,true)=>Ok(Composite::unnamed(mut[Vec::new();.Vec::push(Transformer::resolve(P1,elem(P0).1)?) if %s~(false,true)&&for(P0)]));"
-              "(false,false)=>Err(%s)}" % (ANY, ANY, ANY),
+              "(true,false)=>Ok(Composite::named(Iterator::collect(Iterator::map(P0,|1|{Ok((Into::into(Option::unwrap(C1_0.0)),Transformer::resolve(P1,C1_0.1)?))}))?));"
+              "(false,true)=>Ok(Composite::unnamed(Iterator::collect(Iterator::map(P0,|1|{Transformer::resolve(P1,C1_0.1)}))?));"
+              "(false,false)=>Err(%s)}" % ANY,
               "no fields -> empty unnamed; all named -> named composite of (name, example of id) in order; all unnamed -> unnamed composite in order; mixed -> Err", DR.D)
     DR.seed_and_rng(ctx, "C12.4", M)
     DR.transformer_guard(ctx, "C12.5", M)
